@@ -35,7 +35,7 @@ def _st(spec, v):
 
 
 @st.composite
-def sample_case(draw, small=False):
+def sample_case(draw, small=False, modes=None):
     kinds = ("range", "offset", "perm", "perm", "str", "mixed")
     spec = draw(gen.bn_spec(min_nodes=2, max_nodes=4 if small else 6, name_kinds=("str", "word"), state_kinds=kinds, latents=True,
                             min_card=1 if not small else 2, max_card=3, col_kinds=("dense", "dense", "zeros", "onehot", "onehot", "uniform") if not small else ("dense", "dense", "zeros"),
@@ -51,7 +51,7 @@ def sample_case(draw, small=False):
         cand = ev + [[v, spec["states"][J.idx[v]][a[J.idx[v]]]]]
         if J.prob({x: s for x, s in cand}) >= 0.01:
             ev = cand
-    mode = draw(st.sampled_from(["forward", "rejection", "likelihood_weighted", "simulate", "simulate_do", "simulate_do_evidence", "simulate_evidence", "simulate_virtual_evidence", "simulate_virtual_intervention", "simulate_missing"]))
+    mode = draw(st.sampled_from(modes or ["forward", "rejection", "likelihood_weighted", "simulate", "simulate_do", "simulate_do_evidence", "simulate_evidence", "simulate_virtual_evidence", "simulate_virtual_intervention", "simulate_missing"]))
     do = []
 
     def avg_col(v):
@@ -435,9 +435,103 @@ _HANG_CASE = {"spec": {"name_kind": "str", "shape": "chain", "nodes": ["A", "B"]
               "do": [["B", 2]]}
 
 THOROUGH_SCALE = 2  # thorough-tier example counts are n["thorough"] x this (one thorough run then takes roughly 5-10 minutes on 16 cores)
+# ------------------------------------------------------------------------------------------------- partial samples
+@st.composite
+def partial_case(draw):
+    spec = draw(gen.bn_spec(min_nodes=2, max_nodes=5, name_kinds=("str", "word"), state_kinds=("range",), min_card=2))
+    nodes = spec["nodes"]
+    size = draw(st.sampled_from([1, 4, 17]))
+    k = draw(st.integers(1, min(2, len(nodes) - 1)))
+    pv = list(draw(st.permutations(nodes)))[:k]
+    values = {v: [draw(st.integers(0, spec["card"][nodes.index(v)] - 1)) for _ in range(size)] for v in pv}
+    return {"spec": spec, "size": size, "partial": [[v, values[v]] for v in pv], "index_mode": draw(st.sampled_from(["default", "shuffled", "offset", "strings"])),
+            "index_perm": list(draw(st.permutations(list(range(size))))), "seed": draw(st.integers(0, 10**6)), "api": draw(st.sampled_from(["forward_sample", "simulate"]))}
+
+
+def check_partial(case, out):
+    """forward sampling with given columns (partial_samples): the given values come back row by row, whatever the frame's
+    index looks like, and every other variable is drawn from its CPD given the values in its row"""
+    import pandas as pd
+    from pgmpy.sampling import BayesianModelSampling
+
+    spec, size = case["spec"], case["size"]
+    nodes = spec["nodes"]
+    idx = {v: i for i, v in enumerate(nodes)}
+    model = out.call("build", build_bn, spec)
+    if model is RAISED:
+        return
+    index = {"default": list(range(size)), "shuffled": case["index_perm"], "offset": [100 + 3 * i for i in range(size)],
+             "strings": [f"r{i}" for i in case["index_perm"]]}[case["index_mode"]]
+    part = pd.DataFrame({v: vals for v, vals in case["partial"]}, index=index)
+    out.cls(f"index_{case['index_mode']}", f"api_{case['api']}", f"given{len(case['partial'])}")
+    topo = spec["topo"]
+    given = {v for v, _ in case["partial"]}
+    out.nontrivial = size > 1 and case["index_mode"] != "default" and any(topo.index(v) > 0 for v in given)
+    if case["api"] == "forward_sample":
+        df = out.call("forward_sample[partial_samples]", BayesianModelSampling(model).forward_sample, size=size, partial_samples=part, seed=case["seed"], show_progress=False, n_jobs=1)
+    else:
+        df = out.call("simulate[partial_samples]", model.simulate, n_samples=size, partial_samples=part, seed=case["seed"], show_progress=False)
+    out.evals = 1
+    if df is RAISED:
+        return
+    tag = f"{case['api']}[partial_samples]"
+    if len(df) != size or set(df.columns) != set(nodes):
+        out.fail(f"{tag}:shape", f"{len(df)} rows, columns {list(df.columns)}")
+        return
+    for v, vals in case["partial"]:
+        got = [x.item() if hasattr(x, "item") else x for x in df[v].tolist()]
+        if any(isinstance(g, float) and g != g for g in got) or [int(g) for g in got] != list(vals):
+            out.fail(f"{tag}:given_values_not_returned_row_by_row", f"{v}: got {got} given {vals} (index {case['index_mode']})")
+            return
+    for r in range(size):
+        row = {v: (lambda x: int(x.item() if hasattr(x, "item") else x))(df.iloc[r][v]) for v in nodes}
+        for c in spec["cpds"]:
+            if c["var"] in given:
+                continue
+            col = 0
+            for p_ in c["parents"]:
+                col = col * spec["card"][idx[p_]] + row[p_]
+            if c["table"][row[c["var"]]][col] <= 0:
+                out.fail(f"{tag}:zero_probability_value", f"row {r}: {c['var']}={row[c['var']]} given parents {[(p_, row[p_]) for p_ in c['parents']]} has probability 0")
+                return
+    out.sample = {"nodes": nodes, "partial": [v for v, _ in case["partial"]], "index": case["index_mode"], "size": size}
+
+
+def check_seed_sweep(case, out):
+    """the same seeded call in interpreters with different PYTHONHASHSEED: the runner compares the canonical answers of
+    the shards (every shard sees the same cases); columns are compared by name, rows in order, missing cells as None"""
+    import math as _m
+
+    spec, mode = case["spec"], case["mode"]
+    if mode == "simulate_virtual_evidence" and not all(isinstance(v, str) for v in spec["nodes"]):
+        return
+    model = out.call("build", build_bn, spec)
+    if model is RAISED:
+        return
+    size = min(case["size"], 17)
+    df = out.call(mode, _draw, case, model, case["seed"], size)
+    out.evals = 1
+    out.cls(f"mode_{mode}")
+    out.nontrivial = len(spec["nodes"]) >= 3
+    if df is RAISED:
+        return
+
+    def cell(x):
+        x = x.item() if hasattr(x, "item") else x
+        if x is None or (isinstance(x, float) and _m.isnan(x)):
+            return None
+        return round(x, 12) if isinstance(x, float) else repr(x)
+
+    out.answer = {repr(c): [cell(x) for x in df[c].tolist()] for c in sorted(df.columns, key=repr)}
+
+
 SUBCHECKS = [
     Sub("do_zero_probability_state", check_known_hang, strategy=lambda tier: st.just(_HANG_CASE), n={"quick": 1, "thorough": 1}, shards={"quick": 1, "thorough": 1},
         doc="regression probe of a repaired defect: simulate(do=...) to a state that the node CPD gives probability 0 used not to terminate"),
+    Sub("partial_samples", check_partial, strategy=lambda tier: partial_case(), n={"quick": 100, "thorough": 1500}, shards={"quick": 3, "thorough": 6},
+        doc="forward_sample / simulate with partial_samples: given columns returned row by row for any frame index, the rest drawn given them"),
+    Sub("seeded_across_hashseeds", check_seed_sweep, strategy=lambda tier: sample_case(modes=["simulate_missing", "forward", "simulate_missing", "simulate", "likelihood_weighted", "simulate_do", "simulate_evidence", "simulate_virtual_intervention"]), n={"quick": 60, "thorough": 600}, shards={"quick": 4, "thorough": 8},
+        sweep=True, doc="a fixed seed gives the same samples (incl. the positions of missing values) in interpreters with different PYTHONHASHSEED"),
     Sub("rows", check_rows, strategy=lambda tier: sample_case(), n={"quick": 150, "thorough": 2500},
         shards={"quick": 10, "thorough": 16}, doc="per-row exact checks of forward / rejection / likelihood-weighted sampling and simulate(): counts, columns, state names, support, evidence, weights, seed reproducibility"),
     Sub("distribution", check_stat, strategy=lambda tier: sample_case(small=True), n={"quick": 25, "thorough": 280},
